@@ -564,7 +564,11 @@ def gen_cases(rng, tier):
         tx_case('tx_count_in', 'plain', simple(ins=[(P, k & 0xffffffff, b'', 0xffffffff, []) for k in range(n)]), cs_)
         tx_case('tx_count_out', 'plain', simple(outs=[(k, b'\x51') for k in range(n)]), cs_)
         tx_case('tx_count_wit', 'plain', simple(ins=[(P, 0, b'', 0xffffffff, [b'\x51'] * n)]), cs_)
-        tx_case('tx_count_wit', 'plain', simple(ins=[(P, 0, b'', 0xffffffff, [b''] * n)]), cs_)
+        if n < 65535:
+            # (a stack of n EMPTY items costs the library far more than quadratic time: 8000 items take 6 minutes per
+            # parse, 65535 would take half a day; the 65535 / 65536 boundary of the item count is crossed with
+            # one-byte items only, ~11 minutes per parse)
+            tx_case('tx_count_wit', 'plain', simple(ins=[(P, 0, b'', 0xffffffff, [b''] * n)]), cs_)
     # ---- boundary stream: lengths
     for n in [0, 1, 2, 22, 25, 75, 76, 252, 253, 254, 255, 256, 520, 10000] + ([] if widen else [65534, 65535, 65536]) + \
             ([70000] if big and not widen else []):
@@ -828,6 +832,66 @@ def multisig_mismatch(sc):
             return False
         k += 1
     return k >= 1 and (sc[0] - 80 > k or k != sc[-2] - 80)
+
+
+def canonical_spend(i):
+    """an input in one of the standard signed forms, with a well-formed signature in every signature position (the
+    key positions may hold any key-shaped bytes): the script layer re-assembles exactly the bytes it read"""
+    s, w = i[2], list(i[4])
+
+    def sig(d):
+        return d[:1] == b'\x30' and 69 <= len(d) <= 74 and bip66_ok(d) and d[-1] != 0
+
+    def key(d):
+        return sigkey_shaped(d) and d[:1] != b'\x30'
+
+    def ms_parts(sc):
+        """(m, n) of OP_m <key>.. OP_n OP_CHECKMULTISIG with consistent counts, else None"""
+        if len(sc) < 4 or not (0x51 <= sc[0] <= 0x60) or sc[-1] != 0xae or not (0x51 <= sc[-2] <= 0x60):
+            return None
+        items = level0(sc[1:-2])
+        if not items or b''.join(push(k) for k in items) != sc[1:-2] or not all(key(k) for k in items):
+            return None
+        m, n = sc[0] - 80, sc[-2] - 80
+        return (m, n) if (n == len(items) and m <= n) else None
+
+    def ms_stack(st):
+        if len(st) < 3 or st[0] != b'':
+            return False
+        mn = ms_parts(st[-1])
+        return mn is not None and len(st) - 2 == mn[0] and all(sig(x) for x in st[1:-1])
+    if not w:
+        items = level0(s)
+        if items is None:
+            return False
+        if len(items) == 2 and s == push(items[0]) + push(items[1]):
+            return sig(items[0]) and key(items[1])                                      # P2PKH
+        if len(items) == 1 and s == push(items[0]):
+            return sig(items[0])                                                         # P2PK
+        if len(items) >= 2 and s == b'\x00' + b''.join(push(x) for x in items):
+            return ms_stack([b''] + items)                                               # P2SH multisig
+        return False
+    if s == b'':
+        return (len(w) == 2 and sig(w[0]) and key(w[1])) or ms_stack(w) or (len(w) == 1 and len(w[0]) == 64)
+    if len(w) == 2 and sig(w[0]) and key(w[1]):
+        return s == push(b'\x00\x14' + h160(w[1]))                                       # P2SH-P2WPKH
+    return ms_stack(w) and s == push(b'\x00\x20' + hashlib.sha256(w[-1]).digest())       # P2SH-P2WSH
+
+
+def reassembled_inputs(t):
+    """inputs that carry signature- / key-shaped data in another arrangement than the standard signed forms: the
+    script layer may re-assemble their scriptSig / witness differently (recorded class script_layer_rebuild)"""
+    bad = []
+    for i in t[1]:
+        if i[0] == b'\x00' * 32:
+            continue
+        items = list(i[4]) + pushes(i[2])
+        for w in i[4]:
+            if len(w) > 33:
+                items += pushes(w, 1)
+        if any(sigkey_shaped(d) for d in items) and not canonical_spend(i):
+            bad.append(i)
+    return bad
 
 
 def known_status(cid):
@@ -1324,11 +1388,19 @@ def _rebuild(c, io, mo):
     # parse FAIL: a refusal is not excused by this class
     if 'script_layer_rebuild' not in case_classes(c):
         return False
+    tk = c.req.split(' ')
+    if tk[0] == 'block':
+        f = o_parse_block(unhx(tk[1]))
+        return f is not None and any(reassembled_inputs(t) for t in f['txs'])
     sides = _tx_sides(c, io)
     if sides is None:
         return True
     s, l = sides
-    return not l.startswith('ERR') and not (s.startswith('ERR') and c.req.split(' ')[1] in ('std', 'shp'))
+    # the standard signed forms are written back exactly as read: only other arrangements are re-assembled
+    t = o_parse(unhx(tk[2]))
+    if t is None or not reassembled_inputs(t):
+        return False
+    return not l.startswith('ERR') and not (s.startswith('ERR') and tk[1] in ('std', 'shp'))
 
 
 def _strict_sig(c, io, mo):
